@@ -93,6 +93,10 @@ def cases(tier, seed):
 
 # ---------------------------------------------------------------- builders --
 
+class Misaligned(Exception):
+    """times and states of a dynamics object have different lengths."""
+
+
 class Obj:
     """Uniform wrapper: compute(step target) / dynamics arrays."""
 
@@ -161,12 +165,21 @@ class Obj:
         if dyn is None:
             return None
         if self.cfg == "meanfield":
-            arrs = [np.array(sd.states).reshape(len(dyn.times), -1)
-                    for sd in dyn.system_dynamics]
+            sts = [np.array(sd.states) for sd in dyn.system_dynamics]
+            if any(len(x) != len(dyn.times) for x in sts) or \
+                    len(dyn.fields) != len(dyn.times):
+                raise Misaligned(
+                    f"MeanFieldDynamics reports {len(dyn.times)} times, "
+                    f"{[len(x) for x in sts]} states, {len(dyn.fields)} "
+                    f"field values")
+            arrs = [x.reshape(len(dyn.times), -1) for x in sts]
             arrs.append(np.array(dyn.fields).reshape(-1, 1))
             return np.array(dyn.times), np.concatenate(arrs, axis=1)
-        return np.array(dyn.times), np.array(dyn.states).reshape(
-            len(dyn.times), -1)
+        sts = np.array(dyn.states)
+        if len(sts) != len(dyn.times):
+            raise Misaligned(f"Dynamics reports {len(dyn.times)} times but "
+                             f"{len(sts)} states")
+        return np.array(dyn.times), sts.reshape(len(dyn.times), -1)
 
 
 def tebd_parts(rng, n, dt, nsteps=NGRID + 2):
@@ -223,10 +236,18 @@ def run_hist(case):
         reached = -1
         ok_hist = True
         for n, k in enumerate(seq):
-            before = o.snapshot()
-            o.compute(k)
-            monitors["compute_calls"] += 1
-            after = o.snapshot()        # interleaved get_dynamics
+            try:
+                before = o.snapshot()
+                o.compute(k)
+                monitors["compute_calls"] += 1
+                after = o.snapshot()        # interleaved get_dynamics
+            except Misaligned as exc:
+                violations.append({
+                    "what": f"{cfg}: after the compute targets {seq[:n + 1]} "
+                            f"(dynamics read in between) {exc}",
+                    "mechanism": "history-differs", "detail": {"seq": seq}})
+                ok_hist = False
+                break
             if k <= reached:
                 eq, dev = same(before, after)
                 if not eq:
@@ -240,7 +261,15 @@ def run_hist(case):
                     break
             reached = max(reached, k)
         if ok_hist:
-            eq, dev = same(o.snapshot(), refs[top])
+            try:
+                final_snap = o.snapshot()
+            except Misaligned as exc:
+                violations.append({
+                    "what": f"{cfg}: after the compute targets {seq} {exc}",
+                    "mechanism": "history-differs", "detail": {"seq": seq}})
+                ok_hist = False
+        if ok_hist:
+            eq, dev = same(final_snap, refs[top])
             worst = max(worst, dev if dev != float("inf") else 1e9)
             if not eq:
                 fin = o.snapshot()
